@@ -10,7 +10,7 @@ ASSUMPTIONS = [
     "(look-ups, Empty dispatch) is covered by the K-calc correspondence only",
 ]
 TRUSTED = ["pandas shift/add(fill_value=0) contracts as written on Series.shift / Series.add"]
-GENKW = dict(allow_delete=True, allow_dumps=False, same_window=True)
+GENKW = dict(allow_delete=True, allow_dumps=True, same_window=True, single_zone=True, probe_fixed=True)
 ORACLES = ["sizing"]
 PROP = "C04"
 
